@@ -165,7 +165,9 @@ def oracle_c03(case, obs):
         if rec["style"] == "remote" or h not in acts:
             continue
         st = acts[h]
-        finished_inside = [x for x in st[8] if x[0] == "finish_again" and x[1] == h]
+        # explicit finish() inside the action's own block (only if control reaches it)
+        finished_inside = [x for i, x in enumerate(st[8]) if x[0] == "finish_again" and x[1] == h
+                           and static_outcome(st[8][:i]) is None]
         starts = [m for m in msgs if m.get("f19") == h and m.get("action_status") == "started"]
         if len(starts) != 1:
             return "action %d logged %d start messages" % (h, len(starts))
